@@ -1,11 +1,14 @@
 #!/bin/bash
-# usage: tools_seed_collect.sh <PROP>   -- copy a seeding agent's deliverables from /tmp/seed-<PROP> to seeded/<PROP>-<n>/ and drop its worktree
-P=$1; W=/tmp/seed-$P
+# usage: tools_seed_collect.sh <PROP> [worktree-prefix=/tmp/seed-] [first-number=1]
+#   copy a seeding agent's deliverables (change_i.diff demo_i.py notes.md) from <prefix><PROP> to seeded/<PROP>-<n>/
+#   (n = first-number + i - 1) and drop its worktree
+P=$1; PRE=${2:-/tmp/seed-}; FIRST=${3:-1}; W=$PRE$P
 [ -d $W ] || { echo "no $W"; exit 1; }
-for n in 1 2 3; do
-  [ -f $W/change_$n.diff ] || continue
+for i in 1 2 3; do
+  [ -f $W/change_$i.diff ] || continue
+  n=$((FIRST + i - 1))
   D=/verif/seeded/$P-$n; mkdir -p $D
-  cp $W/change_$n.diff $D/patch.diff; cp $W/demo_$n.py $D/demo.py; cp $W/notes.md $D/notes.md
+  cp $W/change_$i.diff $D/patch.diff; cp $W/demo_$i.py $D/demo.py; cp $W/notes.md $D/notes.md
   git -C /repo apply --check $D/patch.diff && echo "$P-$n: patch applies to /repo HEAD" || echo "$P-$n: PATCH DOES NOT APPLY to /repo HEAD"
 done
-git -C /repo worktree remove --force $W; rm -rf /tmp/numba-cache-*seed-$P* 2>/dev/null
+git -C /repo worktree remove --force $W; rm -rf /tmp/numba-cache-*$(basename $PRE)$P* 2>/dev/null
